@@ -336,13 +336,23 @@ def second_crash_worker(item):
                         continue
             finally:
                 sbase.safe_file_dump = o_dump
-            for lab2, img2 in faultfs.crash_images(state["pre"], rec2.ops, prefix_step=10 ** 9):
+            ops2 = list(rec2.ops)
+            pre2, post2 = state["pre"], state["post"]
+            allowed = set()
+            for img in (pre2, post2):
+                r0 = try_resume(img, kind, kw, work, continue_run=False)
+                if r0["ok"]:
+                    allowed.add(r0["s"])
+            for lab2, img2 in faultfs.crash_images(pre2, ops2, prefix_step=10 ** 9):
                 if "+prefix" in lab2 and not lab2.endswith("/0"):
                     continue
                 r = try_resume(img2, kind, kw, work, continue_run=False)
                 n += 1
                 if not r["ok"]:
                     errs.append((f"unresumable-after-second-crash:{name}", f"first crash '{lab1}', second crash '{lab2}': {r['err']}"))
+                elif r["s"] not in allowed:
+                    what = "starts afresh although a checkpoint had completed" if r["s"] == "fresh" else f"loads {r['s']}"
+                    errs.append((f"state-after-second-crash-is-neither-previous-nor-new:{name}", f"first crash '{lab1}', resumed and ran to its next checkpoint, second crash '{lab2}': the resume {what} (allowed {sorted(map(str, allowed))}); files {sorted(img2)}"))
     except Exception as e:
         return dict(name=name, errs=[], n=0, harness=f"{type(e).__name__}: {e}")
     finally:
@@ -394,17 +404,18 @@ def run(ctx):
             for k, d in res["errs"]:
                 ctx.violation(k, d, {"hist": list(it[0][:4]) + [it[0][4]], "case": d})
         ctx.set("traces_validated_against_impl", validated)
-        two = [h for h in hists if h[2] == "dump"]
-        for it, res in ctx.pmap(second_crash_worker, [(h, ctx.seed) for h in two]):
-            if res.get("harness"):
-                raise RuntimeError(f"two-crash history failed: {res['harness']}")
-            ctx.count("evaluations", res["n"])
-            ctx.count("two_crash_images", res["n"])
-            for v in res["errs"]:
-                ctx.violation(*v)
+    # two-crash histories: crash, resume, run to the next checkpoint, crash again
+    two = [h for h in hists if h[2] == "dump" and (not ctx.quick or h[0] in ("std:checkpoint#2", "ins:checkpoint#2,save_existing", "ins:checkpoint#2"))]
+    for it, res in ctx.pmap(second_crash_worker, [(h, ctx.seed) for h in two]):
+        if res.get("harness"):
+            raise RuntimeError(f"two-crash history failed: {res['harness']}")
+        ctx.count("evaluations", res["n"])
+        ctx.count("two_crash_images", res["n"])
+        for v in res["errs"]:
+            ctx.violation(*v)
     ctx.set("distinct_nontrivial", total_classes)
     ctx.set("histories", len(hists))
-    ctx.set("rule", "for each history (checkpoint #k / weights save #k of a real standard or INS run, with and without keeping the previous checkpoint) every crash point of the recorded file-operation log: before each op, after the last, and for a file open for writing every byte prefix on a lattice (0, 1, n/2, n-1, n and every `prefix_step` bytes). Distinct/non-trivial: distinct (loaded sampler state, loaded weights) classes over all images, each additionally continued to completion under the C01/C03 monitors and the C05 oracle")
+    ctx.set("rule", "for each history (checkpoint #k / weights save #k of a real standard or INS run, with and without keeping the previous checkpoint) every crash point of the recorded file-operation log: before each op, after the last, and for a file open for writing every byte prefix on a lattice (0, 1, n/2, n-1, n and every `prefix_step` bytes). Distinct/non-trivial: distinct (loaded sampler state, loaded weights) classes over all images, each additionally continued to completion under the C01/C03 monitors and the C05 oracle. Two-crash histories: from every operation-boundary image of a checkpoint history the run is resumed up to its next checkpoint, whose operation-boundary images are enumerated again; each must load the state before or after that second checkpoint (never a fresh start once a checkpoint had completed)")
     ctx.set("bounds", dict(prefix_step=step, histories=[h[0] for h in hists]))
     ctx.set("exhaustive", True)
     ctx.assume(
